@@ -132,6 +132,8 @@ def fmt(v):
     """number -> shortest text that round-trips (repr of a Python float / int)"""
     if isinstance(v, bool):
         return "1" if v else "0"
+    if isinstance(v, str):
+        return v
     if isinstance(v, (int, np.integer)):
         return str(int(v))
     return repr(float(v))
